@@ -28,7 +28,7 @@ TRUSTED_BASE = BASE_TRUSTED + [
     'int() of a dyadic int expression and math.factorial are translated to Z.quot / a Z product (py2coq); '
     'valid for |values| < 2**52 and non-negative factorial arguments, exercised by the kernel correspondence',
 ]
-RULE = ('recovery: for each family and every N = 1..37 four points/terms classes M = N (boundary), N+1, 2N, >= 2N+10, points chosen by pivoted QR of an independent design matrix, cond <= 1e3 required (reported in the histogram); recovery cases include data scaled to 1e-11 / 1e-13 (homogeneity of the fit); index lists: the three _generate_indices outputs are enumerated completely (3 x 120 positions) against the model and '
+RULE = ('coefficient containers (int/float/bool lists, tuples, int/float arrays, the default 36 zeros) x histories on one object (construct-evaluate, item-assign-evaluate, replace-evaluate, additivity entered term by term, second default object) x argument kinds: fixed corpus, counts in the histogram of property_oracles_on_implementation; recovery: for each family and every N = 1..37 four points/terms classes M = N (boundary), N+1, 2N, >= 2N+10, points chosen by pivoted QR of an independent design matrix, cond <= 1e3 required (reported in the histogram); recovery cases include data scaled to 1e-11 / 1e-13 (homogeneity of the fit); index lists: the three _generate_indices outputs are enumerated completely (3 x 120 positions) against the model and '
         'against the published rule evaluated in Coq; kernels: every supported (n, m) of the three lists x seeded r in [0,1] '
         '(incl. 0 and 1), phi in [-pi, pi]; poly/objective/fit: seeded coefficient vectors of length 1..37 (and up to 120 for '
         'poly), sample sets of >= 2N+10 points uniform in the unit disk; lenses from tools/lensgen.simple_spec for ZernikeOPD. '
@@ -366,6 +366,174 @@ def oracle_mean_square():
     return None
 
 
+# fixed corpus (not drawn from the seeded stream, so later generator changes cannot lose these cases)
+_CORPUS_VECTORS = [
+    ('int-list', lambda n: [0] * 3 + [1] + [0] * (n - 4)),
+    ('int-list-mixed-sign', lambda n: ([2, 0, -1, 0, 3] + [0] * n)[:n]),
+    ('float-list', lambda n: [0.5 * ((-1) ** k) / (1 + k % 5) for k in range(n)]),
+    ('mixed-int-float-list', lambda n: [(k % 3) if k % 2 else 0.25 * k for k in range(n)]),
+    ('int-tuple', lambda n: tuple(([1, -2, 0, 3] * n)[:n])),
+    ('float-tuple', lambda n: tuple(0.125 * (k - 3) for k in range(n))),
+    ('int-array', lambda n: np.array(([0, 2, -1, 1] * n)[:n], dtype=np.int64)),
+    ('int32-array', lambda n: np.array(([1, 0, 0, -3] * n)[:n], dtype=np.int32)),
+    ('float-array', lambda n: np.linspace(-1.0, 1.0, n)),
+    ('float32-array', lambda n: np.linspace(-0.5, 0.75, n).astype(np.float32)),
+    ('bool-list', lambda n: [bool(k % 2) for k in range(n)]),
+]
+_CORPUS_EDITS = [(1, -0.5), (8, 0.25), (-1, 0.125), (3, 1.75), (0, -0.0625)]
+
+
+def _eval_points():
+    r = np.array([1.0, 0.0, 0.31, 0.77, 0.5, 0.93, 0.12])
+    phi = np.array([0.3, 0.0, -2.2, 1.9, 3.0, -0.7, 0.45])
+    return r, phi
+
+
+def _signed_basis(C, short, N, r, phi):
+    """independent basis (pub_basis) with the family's sign convention per term taken from a float-list unit-vector
+    probe; a term that is neither +Z_k nor -Z_k is reported by oracle_terms, here the closer sign is used"""
+    Z = pub_basis(short, N, r * np.cos(phi), r * np.sin(phi))
+    for k in range(N):
+        e = [0.0] * N
+        e[k] = 1.0
+        t = np.asarray(C(e).poly(r, phi), dtype=float) * np.ones(len(r))
+        if np.max(np.abs(t + Z[:, k])) < np.max(np.abs(t - Z[:, k])):
+            Z[:, k] = -Z[:, k]
+    return Z
+
+
+def oracle_containers_histories():
+    """"evaluating a coefficient vector": poly must be sum_k c_k Z_k for the coefficients the user ENTERED, whatever the
+    numeric container (int / float / bool lists, tuples, int and float arrays, the default 36 zeros) and whatever the
+    history on the object: construct -> evaluate; construct -> item-assign -> evaluate (-> item-assign -> evaluate);
+    construct -> replace the vector -> evaluate; additivity entered term by term; scalar / int / array / 2-D arguments.
+    Expected values come from the entered numbers and the independent basis.  Returns (first failing history, histogram)."""
+    if _CH_CACHE:
+        return _CH_CACHE[0]
+    zk = _zk()
+    r, phi = _eval_points()
+    hist = {'containers': {}, 'histories': {}, 'argument_kinds': {}}
+    first = None
+
+    def bump(d, k):
+        hist[d][k] = hist[d].get(k, 0) + 1
+
+    def fail(fam, cls, cont, history, entered, got, exp, extra=None):
+        nonlocal first
+        if first is None:
+            first = {'kind': 'entered-coefficients-not-evaluated', 'family': fam, 'container': cont, 'history': history,
+                     'call': f'{cls}(<{cont}>) ; {history}', 'entered_coefficients': [float(v) for v in entered],
+                     'r': r.tolist(), 'phi': phi.tolist(), 'poly': np.ravel(got).tolist(), 'expected': np.ravel(exp).tolist(),
+                     'max_abs_error': float(np.max(np.abs(np.ravel(got) - np.ravel(exp))))}
+            first.update(extra or {})
+
+    def close(got, exp, mag):
+        got = np.asarray(got, dtype=float)
+        return got.shape == np.shape(exp) and bool(np.all(np.abs(got - exp) <= 1e-9 * (1 + mag)))
+
+    for fam, cls, short in FAMS:
+        C = getattr(zk, cls)
+        for N in (9, 22, 37):
+            Z = _signed_basis(C, short, N, r, phi)
+            for cont, make in _CORPUS_VECTORS:
+                c0 = make(N)
+                entered = np.array([float(v) for v in c0])
+                mag = float(np.sum(np.abs(entered))) * 6.4
+                obj = C(make(N))
+                bump('containers', cont)
+                # H1 construct -> evaluate
+                bump('histories', 'construct,evaluate')
+                got = obj.poly(r, phi)
+                if not close(got, Z @ entered, mag):
+                    fail(fam, cls, cont, 'poly(r, phi)', entered, got, Z @ entered)
+                # H2 construct -> item-assign non-integers -> evaluate (-> again); only where the USER's container allows it
+                if isinstance(c0, list):
+                    ent = entered.copy()
+                    for step, (k, v) in enumerate(_CORPUS_EDITS):
+                        obj.coeffs[k] = v
+                        ent[k] = v
+                        if step in (2, 4):
+                            bump('histories', 'construct,item-assign x%d,evaluate' % (step + 1))
+                            got = obj.poly(r, phi)
+                            if not close(got, Z @ ent, mag + 20):
+                                fail(fam, cls, cont, f'coeffs[k] = v for (k, v) in {_CORPUS_EDITS[:step + 1]} ; poly(r, phi)', ent, got, Z @ ent,
+                                     {'coefficients_held_by_object': [float(x) for x in np.ravel(np.asarray(obj.coeffs, dtype=float))]})
+                    # additivity, the sum entered term by term into an object created from whole numbers
+                    cb = np.array([0.37 * math.sin(1.0 + 2.3 * k) for k in range(N)])
+                    zs = C(make(N))
+                    for k in range(N):
+                        zs.coeffs[k] = float(entered[k] + cb[k])
+                    bump('histories', 'construct,item-assign all,evaluate (additivity)')
+                    got = zs.poly(r, phi)
+                    exp = np.asarray(C(make(N)).poly(r, phi), dtype=float) + np.asarray(C(list(cb)).poly(r, phi), dtype=float)
+                    if not close(got, exp, mag + 20) or not close(got, Z @ (entered + cb), mag + 20):
+                        fail(fam, cls, cont, 'coeffs[k] = a_k + b_k for all k ; poly(r, phi) vs poly(a) + poly(b)', entered + cb, got, Z @ (entered + cb))
+                # H3 construct -> replace the whole vector (every container kind) -> evaluate
+                for cont2, make2 in (_CORPUS_VECTORS[2], _CORPUS_VECTORS[0], _CORPUS_VECTORS[6], _CORPUS_VECTORS[5]):
+                    new = make2(N)
+                    obj.coeffs = new
+                    e2 = np.array([float(v) for v in new])
+                    bump('histories', 'construct,replace vector,evaluate')
+                    got = obj.poly(r, phi)
+                    if not close(got, Z @ e2, 6.4 * float(np.sum(np.abs(e2)))):
+                        fail(fam, cls, cont, f'coeffs = <{cont2}> ; poly(r, phi)', e2, got, Z @ e2)
+            # argument kinds: python float / int scalars, int array, 2-D array
+            cf = [0.5 * ((-1) ** k) / (1 + k % 5) for k in range(N)]
+            ent = np.array(cf)
+            for kind, rr, pp in (('float scalars', 0.5, 0.25), ('int scalars', 1, 0), ('int scalar r=0', 0, 0),
+                                 ('int arrays', np.array([0, 1, 1]), np.array([0, 0, 2])),
+                                 ('2-D arrays', np.array([[0.2, 0.9], [1.0, 0.6]]), np.array([[0.1, -2.0], [2.5, 1.0]]))):
+                bump('argument_kinds', kind)
+                ra, pa = np.asarray(rr, dtype=float), np.asarray(pp, dtype=float)
+                Zs = _signed_basis(C, short, N, np.ravel(ra), np.ravel(pa))
+                exp = (Zs @ ent).reshape(ra.shape)
+                got = np.asarray(C(list(cf)).poly(rr, pp), dtype=float)
+                if not (got.shape == exp.shape and np.all(np.abs(got - exp) <= 1e-9 * (1 + 6.4 * np.sum(np.abs(ent))))):
+                    fail(fam, cls, 'float-list', f'poly(r, phi) with {kind}: r = {np.ravel(ra).tolist()}, phi = {np.ravel(pa).tolist()}', ent, got, exp)
+        # H4 the default coefficient vector (36 zeros): item-assign on one object, then a SECOND default object
+        a = C()
+        bump('containers', 'default')
+        bump('histories', 'default,item-assign,evaluate')
+        Z36 = _signed_basis(C, short, 36, r, phi)
+        held = [float(v) for v in a.coeffs]
+        ent = np.zeros(36)
+        saved = {}
+        for k, v in _CORPUS_EDITS[:3]:
+            saved[k] = a.coeffs[k]
+            a.coeffs[k] = v
+            ent[k] = v
+        got = a.poly(r, phi)
+        ok_a = len(held) == 36 and not any(held) and close(got, Z36 @ ent, 10)
+        b = C()
+        bump('histories', 'default,item-assign ; second default object,evaluate')
+        got_b = np.asarray(b.poly(r, phi), dtype=float) * np.ones(len(r))
+        held_b = [float(v) for v in b.coeffs]
+        for k, v in saved.items():          # undo, so that a shared default (if any) is not left modified in this process
+            a.coeffs[k] = v
+        if not ok_a:
+            fail(fam, cls, 'default', f'{cls}() ; coeffs[k] = v for {_CORPUS_EDITS[:3]} ; poly(r, phi)', ent, got, Z36 @ ent)
+        if any(held_b) or not close(got_b, np.zeros(len(r)), 0):
+            w = {'kind': 'default-coefficients-shared', 'family': fam, 'container': 'default',
+                 'history': f'a = {cls}() ; a.coeffs[k] = v for {_CORPUS_EDITS[:3]} ; b = {cls}() ; b.poly(r, phi)',
+                 'call': f'{cls}().coeffs', 'call_site': 'ZernikeStandard.__init__ (default argument)',
+                 'second_object_coefficients': held_b[:10], 'poly_of_second_default_object': got_b.tolist(), 'expected': 0.0}
+            hist.setdefault('shared_default', []).append(w)
+    _CH_CACHE.append((first, hist))
+    return first, hist
+
+
+_CH_CACHE = []      # the implementation does not change within one check process
+
+
+def oracle_containers():
+    return oracle_containers_histories()[0]
+
+
+def oracle_shared_default():
+    ws = oracle_containers_histories()[1].get('shared_default')
+    return ws[0] if ws else None
+
+
 def guarded(name, f):
     """run an oracle; an exception raised INSIDE the implementation on a supported input is itself a failing input
     (reported with the call that raised); an exception of the harness propagates (and alarms as a harness failure)"""
@@ -386,6 +554,7 @@ def guarded(name, f):
 def oracle_table(seed):
     rng = random.Random(seed)
     return (('indices', oracle_indices, 360), ('terms', lambda: oracle_terms(rng), 360), ('edge', oracle_edge, 360),
+            ('containers-histories', oracle_containers, 0), ('shared-default', oracle_shared_default, 0),
             ('mean-square', oracle_mean_square, 360), ('orthonormal', oracle_orthonormal, 28800),
             ('poly-linear', lambda: oracle_linear(rng), 30), ('fit-recovers', lambda: oracle_fit(rng), 12),
             ('fit-linear', lambda: oracle_fit_linear(rng), 6))
@@ -766,6 +935,14 @@ def check_oracles(ctx):
         out['nontrivial'] += n
         if w:
             out['disagreements'].append(dict(w, violates_property=True, oracle=name))
+    hist = oracle_containers_histories()[1] if not any(d.get('oracle') == 'containers-histories' and d.get('kind') == 'implementation-raised'
+                                                       for d in out['disagreements']) else {}
+    out['histogram'] = {k: v for k, v in hist.items() if k != 'shared_default'}
+    nh = sum(hist.get('histories', {}).values()) + sum(hist.get('argument_kinds', {}).values())
+    out['n'] += nh
+    out['nontrivial'] += nh
+    out['samples'].append({'oracle': 'containers-histories', 'history': 'ZernikeFringe([0,0,0,1,0,...]) ; coeffs[1] = -0.5 ; coeffs[8] = 0.25 ; '
+                           'coeffs[-1] = 0.125 ; poly(r, phi) == sum_k c_k Z_k (independent basis)'})
     out['samples'].append({'oracle': 'orthonormal', 'quadrature': '48 Gauss-Legendre nodes in r x 96 equispaced in phi'})
     return [out]
 
@@ -822,7 +999,9 @@ def replay_finding(ctx, f):
         c = fit_case(rng, fam, cls, 5, scale=1e-11)
         err = _fit_err(c)
         return bool(err > 1e-6 and matches_finding(_fit_witness(c, err), f))
-    if kind == 'index-rule':
+    if kind == 'default-coefficients-shared':
+        w = guarded('shared-default', oracle_shared_default)
+    elif kind == 'index-rule':
         w = oracle_indices()
     elif kind == 'edge-value':
         w = oracle_edge()
